@@ -15,6 +15,11 @@
   (`Inside p`), which is what the property quantifies over; what the unchecked index does for
   other arguments is recorded as observations at the end.
 
+  The model is tied to the source a second time by REGENERATION: tools/tr_mocksrc.py translates the two Rust files into
+  EG/Generated/MockSrc.lean on every check, Props/C20/Generated.lean / GeneratedColors.lean / GeneratedPattern.lean prove
+  each generated function equal to the model function used below, and Props/C20/GeneratedLaws.lean restates the headline
+  theorems of this file over the generated functions (`src_get_pixel_last_drawn`, `src_draw_pixel_panics_iff`, ...).
+
   "Round trip" has two directions; both are proved here:
     [P] display -> text -> display:  `from_pattern(Debug rows of d) == d` for every display `d` whose
         colours belong to the colour set of its type (`pattern_debug_roundtrip`; the rows, not the framed
